@@ -14,7 +14,9 @@ use crate::report::{Ctx, Report};
 use crate::util;
 
 #[derive(Clone, Debug)]
-pub struct Case { refresh: u64, min: Option<u64>, expiry: Option<i64> }
+pub struct Case { refresh: u64, min: Option<u64>, expiry: Option<i64>,
+    /// a second, longer-lived publication point: 0 none, 1 processed before, 2 after the one under test
+    others: u8 }
 
 fn cases(thorough: bool) -> Vec<Case> {
     let refreshes: &[u64] = if thorough { &[1, 2, 10, 100, 600, 86400] } else { &[1, 10, 100, 600] };
@@ -27,7 +29,10 @@ fn cases(thorough: bool) -> Vec<Case> {
     };
     let mut res = Vec::new();
     for r in refreshes { for m in mins { for e in exps {
-        res.push(Case { refresh: *r, min: *m, expiry: *e });
+        for others in [0u8, 1, 2] {
+            if e.is_none() && others != 0 { continue }
+            res.push(Case { refresh: *r, min: *m, expiry: *e, others });
+        }
     }}}
     res
 }
@@ -51,21 +56,33 @@ fn run_case(c: &Case) -> Result<String, (String, String)> {
         metrics.tals.push(routinator::metrics::TalMetrics::new(tal.clone()));
         if let Some(e) = expiry_abs {
             let not_after = Time::new(chrono::DateTime::from_timestamp(e, 0).unwrap());
+            // a second publication point that lives much longer, before or
+            // after the one under test: the data set expires with the
+            // earliest of its points
+            let far = Time::new(chrono::DateTime::from_timestamp(e + 2_000_000, 0).unwrap());
+            let other = |when: Time| report.verif_push_point(
+                tal.clone(), when, vec![data::origin_universe()[1]], Vec::new(),
+                Vec::<(rpki::resources::Asn, Vec<rpki::resources::Asn>)>::new()
+            );
+            if c.others == 1 { other(far) }
             report.verif_push_point(
                 tal.clone(), not_after, vec![data::origin_universe()[2]], Vec::new(),
                 Vec::<(rpki::resources::Asn, Vec<rpki::resources::Asn>)>::new()
             );
+            if c.others == 2 { other(far) }
         }
         (report, metrics)
     };
+    // the same local exceptions in both runs (origins and keys only)
+    let fixed = { let mut ds = data::history_sets()[1].clone(); ds.aspas.clear(); ds };
     let expiry_abs = c.expiry.map(|e| base.timestamp() + e);
     let (report, metrics) = make(expiry_abs.map(|_| base.timestamp() + 1_000_000));
-    history.update(report, &data::exceptions_for(&data::history_sets()[1]), metrics);
+    history.update(report, &data::exceptions_for(&fixed), metrics);
     history.mark_update_done();
     // the regular run with the data set under test
     let (report, metrics) = make(expiry_abs);
     history.mark_update_start();
-    history.update(report, &data::exceptions_for(&data::history_sets()[1]), metrics);
+    history.update(report, &data::exceptions_for(&fixed), metrics);
     let t0 = unix(SystemTime::now());
     history.mark_update_done();
     let wait = history.read().refresh_wait().as_secs_f64();
@@ -100,19 +117,94 @@ fn run_case(c: &Case) -> Result<String, (String, String)> {
     Ok(if c.min.is_none() { "no-min:refresh".into() } else { "min:no-expiry".into() })
 }
 
+//------------ the server's actual waits --------------------------------------
+
+const SERVER_REFRESH: f64 = 4.0;
+
+/// Runs the real server (no TALs, collectors off, refresh 4 s), sends it
+/// SIGUSR2 (log rotation) at the given offsets into its first wait after a
+/// regular run, and measures when the validation runs start (from the run
+/// log the binary writes under the verification cfg).
+fn server_wait(dir: &std::path::Path, signals_at: &[f64]) -> Result<String, (String, String)> {
+    use std::process::{Command, Stdio};
+    let harness = |e: String| ("harness".to_string(), e);
+    let _ = std::fs::remove_dir_all(dir);
+    std::fs::create_dir_all(dir.join("cache")).map_err(|e| harness(e.to_string()))?;
+    std::fs::create_dir_all(dir.join("tals")).map_err(|e| harness(e.to_string()))?;
+    let conf = dir.join("routinator.conf");
+    std::fs::write(&conf, format!(
+        "repository-dir = \"{}\"\nno-rir-tals = true\nextra-tals-dir = \"{}\"\ndisable-rsync = true\ndisable-rrdp = true\nrefresh = {}\n",
+        dir.join("cache").display(), dir.join("tals").display(), SERVER_REFRESH as u64
+    )).map_err(|e| harness(e.to_string()))?;
+    let log = dir.join("runs.log");
+    let bin = std::env::var_os("VERIF_BIN").map(std::path::PathBuf::from).unwrap_or_else(|| "/verif/target-bin/release/routinator".into());
+    let mut child = Command::new(&bin).arg("--config").arg(&conf).arg("server")
+        .env("VERIF_RUN_OUTCOMES", "").env("VERIF_RUN_LOG", &log).stdin(Stdio::null()).stdout(Stdio::null()).stderr(Stdio::null())
+        .spawn().map_err(|e| harness(format!("cannot start {}: {e}", bin.display())))?;
+    let count = || std::fs::read_to_string(&log).map(|s| s.lines().count()).unwrap_or(0);
+    let started = std::time::Instant::now();
+    let mut starts: Vec<f64> = Vec::new();
+    let mut pending: Vec<f64> = signals_at.to_vec();
+    let horizon = 6.0 + 3.0 * SERVER_REFRESH;
+    // the second observed run is the first regular one; the wait after it is measured
+    while starts.len() < 3 && started.elapsed().as_secs_f64() < horizon {
+        let n = count();
+        while starts.len() < n { starts.push(started.elapsed().as_secs_f64()); }
+        if starts.len() == 2 {
+            let since = started.elapsed().as_secs_f64() - starts[1];
+            if let Some(at) = pending.first().copied() {
+                if since >= at {
+                    unsafe { libc::kill(child.id() as i32, libc::SIGUSR2); }
+                    pending.remove(0);
+                }
+            }
+        }
+        if child.try_wait().map_err(|e| harness(e.to_string()))?.is_some() {
+            return Err(harness("the server exited".into()))
+        }
+        std::thread::sleep(Duration::from_millis(5));
+    }
+    let _ = child.kill();
+    let _ = child.wait();
+    let _ = std::fs::remove_dir_all(dir);
+    if starts.len() < 3 {
+        let seen: Vec<String> = starts.iter().map(|t| format!("{t:.2}")).collect();
+        return Err(("above-maximum".into(), format!(
+            "server with refresh {SERVER_REFRESH} s and SIGUSR2 at {signals_at:?} s into the wait: no third validation run within {horizon} s (runs started at {seen:?})"
+        )))
+    }
+    let wait = starts[2] - starts[1];
+    // runs take milliseconds here; polling and process start-up add a little
+    if wait > SERVER_REFRESH + 0.8 {
+        return Err(("above-maximum".into(), format!(
+            "server with refresh {SERVER_REFRESH} s and SIGUSR2 at {signals_at:?} s into the wait: the next run started {wait:.2} s after the previous one"
+        )))
+    }
+    if wait < SERVER_REFRESH - 0.3 {
+        return Err(("below-minimum".into(), format!(
+            "server with refresh {SERVER_REFRESH} s and SIGUSR2 at {signals_at:?} s into the wait: the next run started only {wait:.2} s after the previous one"
+        )))
+    }
+    Ok(format!("server:signals={}:waited-refresh", signals_at.len()))
+}
+
 pub fn run(ctx: &Ctx) -> Report {
     util::quiet_panics();
     let mut rep = Report::new("exploration");
     let cases = cases(ctx.tier.thorough());
     rep.rule = "full grid refresh x min-refresh (unset and set) x expiry \
         of the installed data set (none, already past, now, and values \
-        below / at / above min-refresh and refresh); an initial run \
+        below / at / above min-refresh and refresh) x a second publication \
+        point with a much later expiry (absent / processed before / after); an initial run \
         serving the same payload with a far expiry, then a regular run \
         installing the data set (same payload, the expiry under test) through \
         SharedHistory::update, mark_update_done, refresh_wait; oracle \
         (bracketing wall clocks): wait >= min-refresh (or refresh), wait \
         <= max(refresh, min-refresh), and with min-refresh set wait == \
-        max(min-refresh, min(expiry, done + refresh) - now); non-trivial \
+        max(min-refresh, min(expiry, done + refresh) - now); and the real \
+        server binary (refresh 4 s, nothing to validate) with SIGUSR2 \
+        arriving at 0 / 1 / 2 points of its wait after a regular run: the \
+        next run starts 4 s (-0.3 / +0.8) after the previous one; non-trivial \
         = cases with min-refresh and an expiry before done + refresh".into();
     rep.bound = format!("{} grid points (complete product)", cases.len());
     for c in &cases {
@@ -125,7 +217,24 @@ pub fn run(ctx: &Ctx) -> Report {
             Err((class, msg)) => {
                 rep.outcome(format!("VIOLATION:{class}"));
                 rep.violation(format!("schedule:{class}:min={}", if c.min.is_some() { "set" } else { "unset" }), msg,
-                    json!({"refresh": c.refresh, "min": c.min, "expiry": c.expiry}));
+                    json!({"refresh": c.refresh, "min": c.min, "expiry": c.expiry, "others": c.others}));
+            }
+        }
+    }
+    // the waits the server really makes, with and without signals arriving meanwhile
+    let signal_cases: Vec<Vec<f64>> = vec![vec![], vec![1.5], vec![0.5, 2.5], vec![3.5]];
+    let res = util::par_map(signal_cases.len() as u64, signal_cases.len(), |i| {
+        util::catch(|| server_wait(&ctx.scratch.join(format!("server-{i}")), &signal_cases[i as usize])).unwrap_or_else(|p| Err(("panic".into(), p)))
+    });
+    for (i, r) in res.into_iter().enumerate() {
+        rep.evaluations += 1;
+        if !signal_cases[i].is_empty() { rep.nontrivial += 1 }
+        match r {
+            Ok(o) => rep.outcome(o),
+            Err((class, msg)) if class == "harness" => { eprintln!("machinery error: {msg}"); std::process::exit(2) }
+            Err((class, msg)) => {
+                rep.outcome(format!("VIOLATION:{class}"));
+                rep.violation(format!("schedule:{class}:server"), msg, json!({"server_signals": signal_cases[i]}));
             }
         }
     }
@@ -136,7 +245,16 @@ pub fn run(ctx: &Ctx) -> Report {
 
 pub fn replay(_ctx: &Ctx, v: &Value) -> Report {
     let mut rep = Report::new("exploration");
-    let c = Case { refresh: v["refresh"].as_u64().unwrap_or(1), min: v["min"].as_u64(), expiry: v["expiry"].as_i64() };
+    if let Some(sig) = v["server_signals"].as_array() {
+        let at: Vec<f64> = sig.iter().filter_map(|x| x.as_f64()).collect();
+        let r = server_wait(&_ctx.scratch.join("replay-server"), &at);
+        println!("server waits with SIGUSR2 at {at:?}: {r:?}");
+        if let Err((class, msg)) = r { rep.violation(format!("schedule:{class}:server"), msg, v.clone()); }
+        rep.evaluations = 1; rep.nontrivial = 2;
+        rep.sample(v.clone());
+        return rep
+    }
+    let c = Case { refresh: v["refresh"].as_u64().unwrap_or(1), min: v["min"].as_u64(), expiry: v["expiry"].as_i64(), others: v["others"].as_u64().unwrap_or(0) as u8 };
     let r = run_case(&c);
     println!("{c:?}: {r:?}");
     if let Err((class, msg)) = r {
